@@ -20,7 +20,16 @@ STAGE_HOOK = {
 COMPACT_HOOK = {"out": "compact.output_written", "idx": "compact.index_saved", "norecl": "reclaim.renaming"}
 
 
-def gen_cfg(name, *, cap, k, types, ctxs, fix, gen_len, max_crash=3, max_flush=3, max_compact=3):
+ALL_FLUSH_CRASH = ["start", "partial", "written", "published", "cleared"]
+ALL_COMPACT_CRASH = ["out", "idx", "norecl"]
+
+
+def _set(xs):
+    return "{" + ", ".join(f'"{x}"' for x in xs) + "}"
+
+
+def gen_cfg(name, *, cap, k, types, ctxs, fix, gen_len, max_crash=3, max_flush=3, max_compact=3,
+            flush_crash=None, compact_crash=None, quiescent_crash=True, clean_restarts=True):
     """Write a StorageGen cfg into .work and return its path."""
     d = core.WORK / "cfg"
     d.mkdir(parents=True, exist_ok=True)
@@ -37,6 +46,10 @@ CONSTANTS
   MaxFlush = {max_flush}
   MaxCompact = {max_compact}
   Fix = {fx}
+  FlushCrash = {_set(ALL_FLUSH_CRASH if flush_crash is None else flush_crash)}
+  CompactCrash = {_set(ALL_COMPACT_CRASH if compact_crash is None else compact_crash)}
+  QuiescentCrash = {"TRUE" if quiescent_crash else "FALSE"}
+  CleanRestarts = {"TRUE" if clean_restarts else "FALSE"}
   GenLen = {gen_len}
 INVARIANT Emit
 CHECK_DEADLOCK FALSE
@@ -107,7 +120,11 @@ def _observe_steps(types, ctxs, tag):
         # (known finding C09-agg-ignores-scope, steered around here)
         st.append({"op": "cmd", "text": f'QUERY {t} WHERE ty = "{t}" COUNT', "tag": [tag, "count", t]})
     for c in ctxs:
-        st.append({"op": "cmd", "text": f"REPLAY FOR {c}", "tag": [tag, "replay", c]})
+        # per type: the wildcard form returns one type only once data is on disk
+        # (known finding C04-wildcard-replay-on-disk); it is observed separately
+        for t in types:
+            st.append({"op": "cmd", "text": f"REPLAY {t} FOR {c}", "tag": [tag, "replay", f"{t}|{c}"]})
+        st.append({"op": "cmd", "text": f"REPLAY FOR {c}", "tag": [tag, "replay_all", c]})
     st.append({"op": "fs", "tag": [tag, "fs"]})
     return st
 
@@ -223,7 +240,7 @@ def run_behaviour(bindir, beh, *, root, cap, k, types, ctxs, fill=None, epz=None
             if not isinstance(tag, list) or len(tag) < 2 or not isinstance(tag[0], int) or tag[0] < 0:
                 continue
             i = tag[0]
-            rec = results.setdefault(i, {"q": {}, "count": {}, "replay": {}, "fs": None, "raw_bad": []})
+            rec = results.setdefault(i, {"q": {}, "count": {}, "replay": {}, "replay_all": {}, "fs": None, "raw_bad": []})
             kind = tag[1]
             if kind == "q":
                 rows = decode_rows(o)
@@ -243,6 +260,8 @@ def run_behaviour(bindir, beh, *, root, cap, k, types, ctxs, fill=None, epz=None
                 if rows is None:
                     rec["raw_bad"].append(o)
                 rec["replay"][tag[2]] = rows
+            elif kind == "replay_all":
+                rec["replay_all"][tag[2]] = decode_rows(o)
             elif kind == "fs":
                 rec["fs"] = o["shards"][0]
                 rec["uids"] = o.get("uids", {})
@@ -291,3 +310,65 @@ def types_with_files(fs, uids, label):
         if fn.endswith(".zones"):
             out.add(inv.get(fn[: -len(".zones")], "?" + fn))
     return out
+
+
+def campaign(chk, tag, plans, types, ctxs, bindir, judge, rnd):
+    """Generate + select + replay + judge. plans: dicts with name, cap, k, gen_len, n_sim, n_rep and
+    optional gen_cfg overrides (`gen`) and run_behaviour overrides (`run`)."""
+    from collections import Counter as C
+    stats = C()
+    total_feat, cov_feat = set(), set()
+    for pl in plans:
+        name = pl["name"]
+        cfgp = gen_cfg(name, cap=pl["cap"], k=pl["k"], types=types, ctxs=ctxs, fix=[], gen_len=pl["gen_len"],
+                       **pl.get("gen", {}))
+        behs, _r = behaviours(cfgp, n=pl["n_sim"], gen_len=pl["gen_len"], seed=core.seed() + pl["cap"] * 7 + pl["k"])
+        rnd.shuffle(behs)
+        if pl.get("filter"):
+            behs = [b for b in behs if pl["filter"](b)]
+        chosen, covered, allf = select(behs, pl["n_rep"])
+        total_feat |= {f"{name}:{f}" for f in allf}
+        cov_feat |= {f"{name}:{f}" for f in covered}
+        core.log(f"[{tag}] {name}: {len(behs)} behaviours generated, {len(chosen)} replayed, features {len(covered)}/{len(allf)}")
+        for bi, beh in enumerate(chosen):
+            recs, problems = run_behaviour(bindir, beh, root=core.WORK / tag.lower() / f"{name}-{bi}", cap=pl["cap"],
+                                           k=pl["k"], types=types, ctxs=ctxs, **pl.get("run", {}))
+            stats["behaviours"] += 1
+            stats["lifetimes"] += 1 + sum(1 for c in beh if c["cmd"] in ("crash", "restart") or c.get("crash", "none") != "none")
+            if any(c.get("crash", "none") != "none" or c["cmd"] == "crash" for c in beh):
+                stats["with_crash"] += 1
+            judge(chk, beh, recs, problems, {"cap": pl["cap"], "k": pl["k"], "plan": name}, stats)
+            if bi < 2:
+                chk.sample({"config": name, "commands": [{x: c[x] for x in c if x != "obs"} for c in beh],
+                            "fired": beh[-1]["obs"]["fired"]})
+    chk.cov["traces_validated_against_impl"] = stats["behaviours"]
+    chk.cov["replay_stats"] = dict(stats)
+    chk.cov["feature_classes_covered"] = len(cov_feat)
+    chk.cov["feature_classes_reachable_in_sim"] = len(total_feat)
+    return stats
+
+
+def partial_branch_mismatch(c, real):
+    """For a crash at stage 'partial': did reality write the same type first as the model chose?"""
+    if c.get("crash") != "partial":
+        return False
+    m = c["obs"]
+    l0 = [s for s in m["segs"] if s < 10000]
+    label = "%05d" % (max(l0) if l0 else 0)
+    got = types_with_files(real.get("fs"), real.get("uids"), label)
+    return got != set(c["part"])
+
+
+def model_stage_m(chk, cfg, tag, timeout=1500, must_take=("Store", "ManualFlush", "Compact", "CrashRestart", "CleanRestart")):
+    """Stage M: exhaustive TLC run on the design parameterisation; fills states/transitions."""
+    r = core.tlc("Storage", cfg, workers=8, timeout=timeout, coverage=True, mem="8g")
+    core.tlc_ok(r, f"Storage/{cfg} (design parameterisation must satisfy all Storage properties)")
+    chk.cov["states"] = r.distinct
+    chk.cov["transitions"] = r.generated
+    chk.cov["model_cfg"] = cfg
+    chk.cov["model_wall_s"] = round(r.wall, 1)
+    for act in must_take:
+        if r.action_cov.get(act, 0) == 0:
+            raise core.ToolError(f"vacuity: action {act} never taken in {cfg}")
+    chk.cov["action_coverage"] = r.action_cov
+    return r
